@@ -34,6 +34,11 @@ Theorem C02_atomname_4_columns : forall nm el s,
   (1 <= String.length nm <= 4)%nat -> format_atomname_src nm el = Ok s -> String.length s = 4%nat.
 Proof. exact format_atomname_length. Qed.
 
+Theorem C02_atomname_alignment : forall nm el,
+  (1 <= String.length nm <= 4)%nat -> format_atomname_src nm el = Ok (spec_atomname nm el).
+Proof. exact format_atomname_spec. Qed.
+Print Assumptions C02_atomname_alignment.
+
 (* PARTIAL: the full statement also asks, for every fitting row d,
      line_ok d line = true                      (every attribute in its wwPDB columns)
      parse_record 0 line = Ok d' /\ approx_row d d' = true   (round trip)
